@@ -38,6 +38,14 @@ def materialise(chunk):
     """Case-level chunk -> the object handed to RequestHandler.write."""
     if isinstance(chunk, (tuple, list)):
         kind, n, k = chunk
+        if kind == "rand":
+            # n incompressible bytes: SHA-256 in counter mode, keyed by k (deterministic)
+            out = bytearray()
+            i = 0
+            while len(out) < n:
+                out += hashlib.sha256(b"%d:%d" % (k, i)).digest()
+                i += 1
+            return bytes(out[:n])
         assert kind == "fill"
         return bytes(((i * k) + (i >> 8) + k) & 0xFF for i in range(n))
     return chunk
@@ -187,30 +195,44 @@ def split_index(prog, k):
     return min(k, len(prog))
 
 
+class PreambleHandler(RequestHandler):
+    """Answers GET /pre: an earlier request on the SAME connection running its own program (settings
+    "prog0"), so that the request under test is not the first use of the connection / server / application."""
+
+    async def get(self):
+        await _interpret(self, self.settings["prog0"])
+
+
+PREAMBLE_PATH = "/pre"
+
+
 class SecondHandler(RequestHandler):
     def get(self):
         self.write(SECOND_BODY)
 
 
-def make_app(prog, early=False, pre=None, **settings):
-    """pre=k: stream_request_body handler running the first k ops (see split_index) in prepare()."""
+def make_app(prog, early=False, pre=None, prog0=None, **settings):
+    """pre=k: stream_request_body handler running the first k ops (see split_index) in prepare().
+    prog0: program of the preamble request (GET /pre) that may precede the request under test."""
     resolved = resolve_prog(prog)
+    routes = [(PREAMBLE_PATH, PreambleHandler), ("/second", SecondHandler)]
+    settings["prog0"] = resolve_prog(prog0 or [])
     if pre is not None:
         k = split_index(resolved, pre)
         return Application(
-            [("/", SplitHandler), ("/second", SecondHandler)],
+            [("/", SplitHandler)] + routes,
             prog_pre=resolved[:k], prog=resolved[k:], **settings,
         )
     return Application(
-        [("/", EarlyHandler if early else ProgramHandler), ("/second", SecondHandler)],
+        [("/", EarlyHandler if early else ProgramHandler)] + routes,
         prog=resolved,
         **settings,
     )
 
 
-def build_request(method, version, conn=None, extra_headers=(), body=None, body_framing="cl"):
+def build_request(method, version, conn=None, extra_headers=(), body=None, body_framing="cl", path="/"):
     """First request of a case (the caller appends SECOND_REQUEST).  body_framing: cl | chunked | none."""
-    lines = ["%s / HTTP/%s" % (method, version), "Host: x"]
+    lines = ["%s %s HTTP/%s" % (method, path, version), "Host: x"]
     if conn is not None:
         lines.append("Connection: " + conn)
     for n, v in extra_headers:
@@ -557,11 +579,28 @@ def predict(prog, method, inm=None, own_etag_304=False):
 
 
 # ----------------------------------------------------------------------------- slow transport
-def roundtrip_slow(app, data, segments=None, server_kwargs=None, grants=()):
+def preamble_request(extra_headers=()):
+    """HTTP/1.1 keep-alive GET for the preamble program (see PreambleHandler)."""
+    return build_request("GET", "1.1", None, extra_headers, path=PREAMBLE_PATH)
+
+
+def strip_preamble(wire, what="preamble"):
+    """-> (first response as parsed by the strict reader, remaining wire).  Raises httpref.RefError."""
+    from . import httpref
+
+    rs = httpref.parse_responses(wire, ["GET"], True, max_responses=1)
+    if not rs:
+        raise httpref.RefError("%s: no response" % what)
+    if rs[0].framing == "close":
+        raise httpref.RefError("%s: response delimited by close on a connection that must persist" % what)
+    return rs[0], wire[rs[0].end:]
+
+
+def roundtrip_slow(app, data, segments=None, server_kwargs=None, grants=(), after=None):
     """Like httpharness.roundtrip, but the transport accepts output only as far as write credit was
     granted: the request is fed with zero credit, then every entry of `grants` (cumulative byte counts,
     ascending) raises the total credit to that value and lets the loop go quiescent; finally the credit
-    becomes unlimited.  Returns (wire, closed, logs, trace) where trace[i] = (total credit, bytes on the
+    becomes unlimited (then `after(session)` runs, if given).  Returns (wire, closed, logs, trace) where trace[i] = (total credit, bytes on the
     wire, closed) after step i.  What the client finally receives must not depend on the schedule."""
     from . import httpharness, vtime
 
@@ -580,6 +619,8 @@ def roundtrip_slow(app, data, segments=None, server_kwargs=None, grants=()):
                 trace.append((granted, len(s.stream.wire), s.closed))
         s.stream.write_credit = None
         await s.settle()
+        if after is not None:
+            await after(s)  # e.g. let virtual time pass, then send another request on the same connection
         wire, closed = s.wire, s.closed
         trace.append((None, len(wire), closed))
         if not s.closed:
